@@ -17,7 +17,8 @@ Tie: T + X.
 Oracle (implementation only, exact Python ints / Fractions, judged by output values): least packable count (exhaustive); storage swept
      around EVERY GiB boundary of a dense range of GiB counts (_storage_sweep): granted GiB * 2^30 >= requested bytes
      [storage-rounding-under / storage-under / storage-string-under], least such whole number given the 10 GiB minimum
-     [storage-rounding-not-least / storage-not-least / storage-below-minimum], refused only above the cloud maximum
+     [storage-rounding-not-least / storage-not-least / storage-below-minimum: more than the property text, judged only when a proof or
+     the tie is already broken, see _STRICT], refused only above the cloud maximum
      [storage-rejected / storage-over-max], accepted by the worker and given at least that many bytes of disk quota
      [storage-grant-invalid / storage-quota-under]; memory adjustment; every answer of select_inst_coll.
 """
@@ -578,6 +579,14 @@ def _storage_want(t, cloud, need, allow):
     return max(10, -((-_ceil(need)) // GIB))
 
 
+# The property TEXT demands "granted storage at least the request" and "rejected only if unsatisfiable"; that the grant is the LEAST whole
+# number of GiB / respects the worker's 10 GiB minimum are PROVED facts about the code as it is (C12_storage_rounding_least,
+# C12_storage_grant_least), i.e. more than the text.  Their run-time forms (storage-rounding-not-least, storage-not-least,
+# storage-below-minimum) are judged only when a proof obligation or the tie is already broken (oracle budget > 1: they turn the broken
+# theorem into a concrete input) and in replay.
+_STRICT = {'on': True}
+
+
 def _judge_storage(t, cloud, need, allow, got, case, under_key='storage-under'):
     """the property on one storage grant of the real code (got = granted GiB or None), judged by value in exact integers"""
     want = _storage_want(t, cloud, need, allow)
@@ -592,6 +601,8 @@ def _judge_storage(t, cloud, need, allow, got, case, under_key='storage-under'):
                 f'>= {_ceil(need)} bytes' + (f' ({want} GiB)' if want is not None else ''), got * GIB)
     if want is None or got > t['max_storage_gib'][cloud]:
         return ('storage-over-max', 'storage above the cloud maximum accepted / granted', case, None, got)
+    if not _STRICT['on']:
+        return None
     if got < want:
         return ('storage-below-minimum', f'granted {got} GiB, below the 10 GiB minimum disk the worker insists on (is_valid_storage_request)', case, want, got)
     if got > want:
@@ -613,7 +624,7 @@ def _check_helper(t, name, a, got):
         if got * GIB < b:
             return ('storage-rounding-under', f'round_storage_bytes_to_gib({b}) = {got}: {got} GiB = {got * GIB} bytes do not cover {b} bytes',
                     [name, a], -((-b) // GIB), got)
-        if (b == 0 and got != 0) or (b > 0 and (got - 1) * GIB >= b):
+        if _STRICT['on'] and ((b == 0 and got != 0) or (b > 0 and (got - 1) * GIB >= b)):
             return ('storage-rounding-not-least', f'round_storage_bytes_to_gib({b}) = {got}: {got - 1} GiB already cover {b} bytes',
                     [name, a], -((-b) // GIB), got)
         return None
@@ -682,6 +693,7 @@ def _storage_sweep(ctx, t):
 
 def oracle(ctx, budget):
     t = _get_tables(ctx)
+    _STRICT['on'] = budget > 1
     fails = []
     sw = _sweep(ctx)
     for c, want, got in sw['bad']:
